@@ -5,6 +5,7 @@ import (
 	"go/ast"
 	"go/token"
 	"go/types"
+	"sort"
 	"strings"
 
 	"octoverif/core"
@@ -64,6 +65,8 @@ func runC18(c *core.Ctx) {
 	checkMaxDiffWatermark(c, "GEN")
 	c.Rule("JOINTIME", "joins stamp what they emit with an event time not older than the processed record's")
 	checkJoinRecordTimes(c, "JOINTIME")
+	c.Rule("WMFWD", "a group by keeps its time field only with a trigger that fires on watermarks")
+	checkWatermarkFiringTriggers(c, "WMFWD")
 	c.Rule("TRIGTIME", "group by: retraction and new row carry the same, current event time")
 	checkTriggerEventTime(c)
 }
@@ -1002,4 +1005,64 @@ func checkJoinRecordTimes(c *core.Ctx, rule string) {
 	}
 	c.Floor(rule, 6, "records emitted by StreamJoin and OuterJoin while processing a record")
 	_ = total
+}
+
+// checkWatermarkFiringTriggers (WMFWD): a GROUP BY by an event-time key forwards the watermarks it receives
+// (ORD3: WatermarkReceived → trigger → metaSend) and stamps what it emits with the key's event time. That is only
+// free of late data if every key at or below a watermark has been emitted before the watermark is forwarded — which
+// only a trigger that reacts to watermarks guarantees. Triggers whose WatermarkReceived does nothing (counting, end of
+// stream) leave such keys pending and emit them later, behind the forwarded watermark. So the planner must either
+// keep the time field only when a watermark trigger is among the triggers, or add one.
+func checkWatermarkFiringTriggers(c *core.Ctx, rule string) {
+	p := c.Prog
+	var inert []string
+	for _, fr := range p.AllFuncs("execution") {
+		if core.Rel(fr.Pkg) != "execution" || fr.Decl.Name.Name != "WatermarkReceived" || fr.Decl.Recv == nil {
+			continue
+		}
+		if len(fr.Decl.Body.List) == 0 {
+			inert = append(inert, p.FName(fr))
+		}
+	}
+	sort.Strings(inert)
+	fn := p.Func("logical", "(*GroupBy).Typecheck")
+	key := "logical.(*GroupBy).Typecheck/time field kept for every trigger"
+	if fn == nil {
+		c.Unknown(rule, key, 0, "anchor not found")
+		return
+	}
+	c.SawFunc("logical.(*GroupBy).Typecheck")
+	// the schema's time field argument, and whether it is ever withdrawn depending on the triggers
+	var timeArg string
+	var pos token.Pos
+	withdrawn := false
+	ast.Inspect(fn.Decl.Body, func(n ast.Node) bool {
+		switch v := n.(type) {
+		case *ast.CallExpr:
+			if strings.HasSuffix(p.CalleeName(fn.Info(), v), "physical.NewSchema") && len(v.Args) >= 2 {
+				timeArg = core.ExprStr(v.Args[1])
+				pos = v.Pos()
+			}
+		case *ast.IfStmt:
+			cs := core.FullStr(v.Cond)
+			if strings.Contains(cs, "TriggerType") || strings.Contains(cs, "trigger") || strings.Contains(cs, "Trigger") {
+				ast.Inspect(v.Body, func(m ast.Node) bool {
+					if as, ok := m.(*ast.AssignStmt); ok && len(as.Lhs) == 1 && strings.Contains(strings.ToLower(core.ExprStr(as.Lhs[0])), "eventtimeindex") {
+						withdrawn = true
+					}
+					if call, ok := m.(*ast.CallExpr); ok && strings.HasPrefix(core.ExprStr(call.Fun), "append") && strings.Contains(core.FullStr(call), "Watermark") {
+						withdrawn = true // a watermark trigger is added
+					}
+					return true
+				})
+			}
+		}
+		return true
+	})
+	if timeArg == "" {
+		c.Unknown(rule, key, fn.Decl.Pos(), "the output schema construction was not found")
+		return
+	}
+	c.Decide(len(inert) == 0 || withdrawn || timeArg == "-1", rule, key, pos, len(inert)+1, "the time field is kept only with a trigger that fires on watermarks",
+		fmt.Sprintf("the output schema keeps the event-time key as time field (%s) whatever the trigger, and the node forwards every watermark; %s ignore watermarks, so with TRIGGER COUNTING n (n > 1) or ON END OF STREAM a key at or below a forwarded watermark is still pending and is emitted later with its old event time — late data created by the operator itself", timeArg, strings.Join(inert, ", ")))
 }
